@@ -824,7 +824,11 @@ func c15Compression(c *Ctx) {
 				}
 			}
 		}
-		ci.requireAssume(c, rule, "a ClientHello without null compression aborts", []assumption{{`re:eq\((idx\(|call:bytes\.IndexByte\().*compressionMethods.*,(0x0|-0x1)\)`, false}}, spec, nil,
+		ci.requireAssume(c, rule, "a ClientHello without null compression aborts", []assumption{
+			{`re:eq\(idx\(.*compressionMethods.*\),(0x0|0)\)`, false},
+			{`re:lt\(call:bytes\.IndexByte\(.*compressionMethods.*\),(0x0|0)\)`, true},
+			{`re:eq\(call:bytes\.IndexByte\(.*compressionMethods.*\),-0x1\)`, true},
+			{`re:call:bytes\.Contains\(.*compressionMethods.*\)`, false}}, spec, nil,
 			"the server answers with null compression whether or not the client offered it")
 	}
 	for _, name := range []string{"(*clientHandshakeState).processServerHello", "(*clientHandshakeStateGM).processServerHello"} {
